@@ -19,7 +19,7 @@ RULE = ('corpus: every clause shape with 0..3 variables that occur only inside h
         'an order-controlled stand-in; every call is a choice point and EVERY permutation of its elements is explored at '
         'one call site (thorough: at every pair of call sites), all other sites keeping insertion order - the output must '
         'be byte-identical to the default-order output; (b) the whole corpus is compiled in fresh processes under '
-        'PYTHONHASHSEED 0..5 (thorough 0..15) and the per-program digests must agree; (c) in one process every ordered pair '
+        'PYTHONHASHSEED 0..5 (thorough 0..15) and the per-program digests must agree; the programs with non-ASCII text (string API and file API) and 40 others also in fresh processes with other environments (C locale without UTF-8 mode, UTF-8 mode, another working directory and time zone); (c) in one process every ordered pair '
         'of corpus programs (from a subset, incl. the same text under other options: debug_filename with different file names, the file API and the library\'s default options object, a CompilerContext instance) is compiled before the target and the target\'s output compared with its output '
         'in a fresh state; (d) the whole corpus is compiled in one process in 3 orders (forward, reverse, interleaved: every program after every other one; every third program also with the tracing options on, forward and reverse) and every output compared with the output of a child forked from a process that has never compiled anything. states = distinct (program, output digest) pairs; transitions = compiler invocations; non-trivial '
         '= the program has >= 2 fresh variables or a choice point was explored')
@@ -281,6 +281,60 @@ json.dump(out, sys.stdout)
 '''
 
 
+ENVIRONMENTS = {
+    # a process whose default text encoding is not UTF-8 (what a plain C locale gives)
+    'c-locale-no-utf8-mode': {'LC_ALL': 'C', 'LANG': 'C', 'PYTHONUTF8': '0', 'PYTHONCOERCECLOCALE': '0', 'PYTHONIOENCODING': 'utf8'},
+    'utf8-mode': {'LC_ALL': 'C', 'LANG': 'C', 'PYTHONUTF8': '1'},
+    'other-working-directory-and-tz': {'TZ': 'Asia/Kathmandu', 'VERIF_CHDIR': '/'},
+}
+
+
+def non_ascii_corpus(tier):
+    return [(n, t) for n, t in corpus_wide(tier) if any(ord(c) > 127 for c in t)] + [
+        ('non-ascii-atoms', "book('五輪書', 'é').\nauthor(X) :- X = 'ü', book(_, X).\n% comment with ß\n")]
+
+
+def compile_file_or_exc(text):
+    import tempfile
+    import shutil
+    d = tempfile.mkdtemp(prefix='verif-c18-')
+    try:
+        path = os.path.join(d, 'prog.prolog')
+        with open(path, 'w', encoding='utf8', newline='') as f:
+            f.write(text)
+        try:
+            return impl.compiler.compile_prolog_from_file(path, impl.Ctx)
+        except Exception as e:  # noqa: BLE001
+            return 'EXC:%s' % type(e).__name__
+    finally:
+        shutil.rmtree(d, ignore_errors=True)
+
+
+ENV_WORKER = r'''
+import sys, json, os
+if os.environ.get('VERIF_CHDIR'):
+    os.chdir(os.environ['VERIF_CHDIR'])
+sys.path.insert(0, %(verif)r)
+from mc.checks import c18
+out = {}
+for name, text in c18.non_ascii_corpus(%(tier)r):
+    out[name] = c18.digest(c18.compile_or_exc(text))
+    out[name + '@file'] = c18.digest(c18.compile_file_or_exc(text))
+for name, text in c18.corpus(%(tier)r)[:40]:
+    out[name] = c18.digest(c18.compile_or_exc(text))
+sys.stdout.write(json.dumps(out))
+'''
+
+
+def run_env(tier, envname):
+    env = dict(os.environ)
+    env.update(ENVIRONMENTS[envname])
+    p = subprocess.run([sys.executable, '-c', ENV_WORKER % {'verif': VERIF, 'tier': tier}], env=env, capture_output=True, text=True, timeout=3000)
+    if p.returncode != 0:
+        raise RuntimeError('environment worker failed: %s' % p.stderr[-2000:])
+    return json.loads(p.stdout)
+
+
 def run_seed(tier, seed):
     env = dict(os.environ)
     env['PYTHONHASHSEED'] = str(seed)
@@ -383,7 +437,7 @@ NSH = 16
 def plan(tier):
     seeds = range(6 if tier == 'quick' else 16)
     # the longest shards first
-    return [('sweep', tier, o) for o in SWEEPS] + [('hist', tier, k, NSH) for k in range(NSH)] + [('seed', tier, s) for s in seeds] + [('set', tier, k, NSH) for k in range(NSH)]
+    return [('sweep', tier, o) for o in SWEEPS] + [('hist', tier, k, NSH) for k in range(NSH)] + [('seed', tier, s) for s in seeds] + [('env', tier, e) for e in ENVIRONMENTS] + [('set', tier, k, NSH) for k in range(NSH)]
 
 
 def run_shard(spec):
@@ -396,6 +450,30 @@ def run_shard(spec):
             explore_set_orders(acc, (0, idx), name, text, 1 if tier == 'quick' else 2)
             if idx % 53 == 0:
                 acc.sample({'program': text[:200]}, limit=1)
+    elif spec[0] == 'env':
+        _, tier, envname = spec
+        other = run_env(tier, envname)
+        mine = {}
+        texts = {}
+        for name, text in non_ascii_corpus(tier):
+            mine[name] = digest(compile_or_exc(text))
+            mine[name + '@file'] = digest(compile_file_or_exc(text))
+            texts[name] = texts[name + '@file'] = text
+        for name, text in corpus(tier)[:40]:
+            mine[name] = digest(compile_or_exc(text))
+            texts[name] = text
+        for name, d in mine.items():
+            acc.n['evaluations'] += 1
+            acc.n['validated'] += 1
+            acc.n['transitions'] += 1
+            acc.n['nontrivial'] += 1
+            if other.get(name) != d:
+                acc.violation('output-depends-on-process-environment', (4, envname, name), {'env': envname, 'tier': tier, 'name': name},
+                              'program %s%s\n%s\ngives another result (digest %s) in a fresh process with the environment %s than in this process (digest %s)'
+                              % (name, ' compiled through compile_prolog_from_file' if name.endswith('@file') else '', texts[name][:300], other.get(name), ENVIRONMENTS[envname], d),
+                              key='env|%s|%s' % (envname, name))
+            else:
+                acc.outcome((name, d))
     elif spec[0] == 'sweep':
         run_sweep(acc, spec[1], spec[2])
     elif spec[0] == 'seed':
@@ -474,6 +552,9 @@ def run_fresh(text, opts=None):
 
 def replay(case):
     acc = Acc()
+    if 'env' in case:
+        acc = run_shard(('env', case['tier'], case['env']))
+        return [(sig, g['detail']) for sig, g in acc.groups.items()]
     if 'sweep' in case:
         run_sweep(acc, case['tier'], case['sweep'])
         return [(sig, g['detail']) for sig, g in acc.groups.items()]
